@@ -3077,7 +3077,7 @@ def update_working_tree(
                     blob_normalizer,
                     path,
                 )
-                if not file_matches:
+                if not file_matches and not allow_overwrite_modified:
                     raise OSError(
                         f"Cannot replace modified file with directory: {path!r}"
                     )
